@@ -117,7 +117,7 @@ theorem emitBody_single (q : Quirks) (ops : Ops σ) (c : SelCtx σ) (i : Core σ
 
 theorem emitItem_atrule_eq (q : Quirks) (ops : Ops σ) (c : SelCtx σ) (n a : σ) (body : List (Core σ)) (st : St σ) :
     emitItem q ops c (.atrule n a body) st =
-      match emitBody q ops (if ops.isKeyframes n then {} else { c with excluded := c.excluded && ops.isSupports n })
+      match emitBody q ops (if ops.isKeyframes n then {} else { c with excluded := false })
           body (startAtRule ops (!c.excluded || q.atRootKeepsRule) n a st) with
       | .error e => .error e
       | .ok st2 => liftInv (close q ops st2) := by
